@@ -66,6 +66,8 @@ Lists == { << <<"+", "size", "1">>, <<"-", "size", "1">>, <<"*", "size", "2">>, 
            \* the same negated bracket more than once in a row, alone and as a sub-expression
            << <<"*", "neg", "+", "size", "1", "2">>, <<"neg", "+", "size", "1">>, <<"neg", "+", "size", "1">>, <<"+", "size", "1">> >>,
            << <<"neg", "%", "size", "5">>, <<"%", "size", "5">>, <<"neg", "%", "size", "5">>, <<"-", "10", "neg", "*", "size", "2">>, <<"neg", "*", "size", "2">> >>,
+           \* a remainder with a negative dividend (the sign of the result follows the dividend)
+           << <<"%", "neg", "size", "3">>, <<"%", "size", "3">>, <<"%", "-", "2", "size", "4">>, <<"neg", "size">> >>,
            \* the same negated function call more than once in a row, alone and inside a sum
            << <<"+", "neg", "length(name)", "1">>, <<"neg", "length(name)">>, <<"neg", "length(name)">>, <<"length(name)">>, <<"-", "size", "neg", "length(name)">> >> }
 ChooseList == /\ phase = "start" /\ kind' = "list" /\ exprs' \in Lists /\ style' = "min" /\ wop' = "" /\ wlit' = 0 /\ phase' = "done"
